@@ -148,6 +148,24 @@ def skipToBoundary (ib : Bytes) : Nat → R → R
     | ([], r') => r'
     | (l, r') => if strip l = DASH :: DASH :: ib then r' else skipToBoundary ib fuel r'
 
+/-- the parameters of the part's Content-Disposition (`name`, `filename`) -/
+def partParams (hs : List (Str × Str)) : List (Str × Str) :=
+  match headerGet hs "content-disposition" with
+  | some v => (HeaderValue.parseHeader v).2
+  | none => []
+
+/-- the part's media type: the Content-Type header without its parameters, `text/plain` if absent -/
+def partCtype (hs : List (Str × Str)) : Str :=
+  match headerGet hs "content-type" with
+  | some v => (HeaderValue.parseHeader v).1
+  | none => "text/plain".toList
+
+/-- a part with a (non-empty) file name is a file: its value stays bytes -/
+def partIsFile (filename : Option Str) : Bool :=
+  match filename with
+  | some f => !f.isEmpty
+  | none => false
+
 /-- the loop of `read_multi`: one part per turn -/
 def readParts (ib : Bytes) : Nat → R → Res (List Part)
   | 0, _ => .ok []
@@ -159,18 +177,14 @@ def readParts (ib : Bytes) : Nat → R → Res (List Part)
       | none => .unsupported
       | some hs =>
         let hs := hs.filterMap id
-        let cd := (headerGet hs "content-disposition").map HeaderValue.parseHeader
-        let pd := match cd with | some x => x.2 | none => []
-        let ct := match headerGet hs "content-type" with
-          | some v => (HeaderValue.parseHeader v).1
-          | none => "text/plain".toList
+        let pd := partParams hs
+        let ct := partCtype hs
         if ct.take 10 = "multipart/".toList then .unsupported
         else if ct = "application/x-www-form-urlencoded".toList then .unsupported
         else
           let filename := dictGet pd "filename"
-          let isFile := match filename with | some f => !f.isEmpty | none => false
           let body := readLines rd (DASH :: DASH :: ib) (DASH :: DASH :: ib ++ [DASH, DASH]) fuel ⟨[], [], true⟩ hl.2
-          let part : Part := ⟨dictGet pd "name", filename, ct, body.1, isFile⟩
+          let part : Part := ⟨dictGet pd "name", filename, ct, body.1, partIsFile filename⟩
           match body.2.1 with
           | .next =>
             match readParts ib fuel body.2.2 with
